@@ -8,6 +8,7 @@
    period); every server / storage value AND what building raises is compared exactly with EFNumeric by TLC; the
    sizing theorems are evaluated on the observed values.
    The same after in-place edits that raise the load, change a fixed count, a request duration or the data stored.
+   The same, from the jobs' own hourly occurrences, on systems with services after a job or a service is moved (LiveSizing).
 3. float inputs ("awkward" magnitudes): only the qualitative clause is decided -- a model without deleting job is
    never rejected for negative storage.
 """
@@ -43,6 +44,82 @@ def float_models(ns, rng, n, tid0):
     return events
 
 
+def live_sizing_event(ns, tid, seq, system, services, label):
+    """what every server and storage of a live system offers at every hour, next to what its jobs need, recomputed here from
+    the jobs' own hourly occurrences and the inputs (forward links only: journey -> steps -> jobs -> server -> storage)"""
+    def hq(v):
+        p = efx.project_value(ns, v)
+        return p[3] if p[0] == "H" else {}
+
+    def sq(v):
+        p = efx.project_value(ns, v)
+        return p[2] if p[0] == "Q" else 0.0
+    jobs = {}
+    for up in system.usage_patterns:
+        for step in up.usage_journey.uj_steps:
+            for j in step.jobs:
+                jobs[j.id] = j
+    services = {x.id: x for x in list(services) + [j.service for j in jobs.values() if hasattr(j, "service")]}
+    ev = {"tid": tid, "seq": seq, "ev": "LiveSizing", "label": label, "servers": [], "storages": []}
+    for srv in sorted(system.servers, key=lambda x: x.name):
+        mine = [j for j in jobs.values() if j.server.id == srv.id]
+        inst = [x for x in services.values() if x.server.id == srv.id]
+        avail_ram = sq(srv.ram) * sq(srv.server_utilization_rate) - sq(srv.base_ram_consumption) - sum(
+            sq(x.base_ram_consumption) for x in inst)
+        avail_cpu = sq(srv.compute) * sq(srv.server_utilization_rate) - sq(srv.base_compute_consumption) - sum(
+            sq(x.base_compute_consumption) for x in inst)
+        need = {}
+        for j in mine:
+            for h, occ in hq(j.hourly_avg_occurrences_across_usage_patterns).items():
+                r, c_ = need.get(h, (0.0, 0.0))
+                need[h] = (r + occ * sq(j.ram_needed), c_ + occ * sq(j.compute_needed))
+        nb = hq(srv.nb_of_instances)
+        hours = sorted(set(need) | set(nb))
+        ev["servers"].append({"o": srv.name, "type": str(srv.server_type.value), "h": hours,
+                              "need": [int(round(1000 * max(need.get(h, (0, 0))[0] / avail_ram, need.get(h, (0, 0))[1] / avail_cpu)))
+                                       for h in hours],
+                              "nb": [int(round(1000 * nb.get(h, 0.0))) for h in hours]})
+        sto = srv.storage
+        delta = {}
+        for j in mine:
+            for h, x in hq(j.hourly_data_stored_across_usage_patterns).items():
+                delta[h] = delta.get(h, 0.0) + x * sq(sto.data_replication_factor)
+        snb = hq(sto.nb_of_instances)
+        hours = sorted(set(delta) | set(snb))
+        if hours and sq(sto.data_storage_duration) > 3600 * (hours[-1] - hours[0] + 1):     # nothing expires within the period
+            cum, run_ = [], sq(sto.base_storage_need)
+            for h in hours:
+                run_ += delta.get(h, 0.0)
+                cum.append(int(round(run_ / 8e6)))
+            ev["storages"].append({"o": sto.name, "h": hours, "cum": cum,
+                                   "cap": [int(round(snb.get(h, 0.0) * sq(sto.storage_capacity) / 8e6)) for h in hours]})
+    return ev
+
+
+def service_events(ns, tid0):
+    """systems with services (web application, video streaming, generative AI on a GPU server): a job moved to a service that has no
+    job yet on another server, a service moved to another server -- the servers and storages must be sized for the jobs they
+    run NOW"""
+    from . import c17
+    events, tid = [], tid0
+    for kind in ("VideoStreaming", "WebApplication", "GenAIModel"):
+        for what in ("built", "job.service", "service.server", "job.service-and-back"):
+            tid += 1
+            try:
+                system, job, s1, s2, a, b = c17.relink_build(ns, kind, 1, "A", scale=200000 if kind == "WebApplication" else 2000, storage_capacity=lambda: c17.sv(ns, 1, "GB"))
+                if what.startswith("job.service"):
+                    job.service = s2
+                    if what.endswith("back"):
+                        job.service = s1
+                elif what == "service.server":
+                    s1.server = b
+                events.append(live_sizing_event(ns, tid, 0, system, [s1, s2], f"{kind}:{what}"))
+            except Exception as ex:   # noqa: the observation is that the move could not be made or read
+                events.append({"tid": tid, "seq": 0, "ev": "LiveSizing", "label": f"{kind}:{what}", "servers": [], "storages": [],
+                               "error": f"{type(ex).__name__}: {str(ex)[:150]}"})
+    return events
+
+
 def run(tier, out):
     wd = work_dir("c04")
     try:
@@ -60,6 +137,10 @@ def run(tier, out):
             e["tid"] += 2 * 10 ** 6
         events += edited
         events += float_models(ns, random.Random(base + 11), n_float, 10 ** 6)
+        svc = service_events(ns, 4 * 10 ** 6)
+        events += svc
+        for e in svc:
+            out.nontrivial.add(("service", e["label"]))
         fails, _notes, res = numcheck.validate(wd, events, focus=SIZING_KINDS)
         out.add_tlc(res, "Trace_Numeric: server/storage kinds, raises, float models")
         models = [e for e in events if e["ev"] == "Model"]
